@@ -343,6 +343,24 @@ def generate(tier, seed, ctx):
         w = [1.0] * len(vals) if rng.random() < 0.5 else [rng.uniform(0.1, 3) for _ in vals]
         bw = 0.0 if (rng.random() < 0.5 and len(vals) > 1) else width * 10.0 ** rng.uniform(-1.5, -0.3)
         R.append("c07.kde %d %s %s %s %s" % (len(vals), " ".join(hx(v) + " " + hx(ww) for v, ww in zip(vals, w)), hx(xmin), hx(xmax), hx(bw)))
+    # ---- two-dimensional normal density (coverage extension) ----
+    rng2 = random.Random(seed * 15485863 + 707)
+    for k in range(120 * n1):
+        m1, m2 = rng2.uniform(-5, 5), rng2.uniform(-5, 5)
+        s1, s2 = 10.0 ** rng2.uniform(-3, 3), 10.0 ** rng2.uniform(-3, 3)
+        c = k % 5
+        if c == 0:
+            x, y = m1, m2                                   # the mode
+        elif c == 1:
+            x, y = m1 + s1 * rng2.uniform(-3, 3), m2 + s2 * rng2.uniform(-3, 3)
+        elif c == 2:
+            x, y = m1 + s1 * rng2.uniform(-30, 30), m2 + s2 * rng2.uniform(-30, 30)      # tails (underflow region included)
+        elif c == 3:
+            m1, m2, s1, s2 = dyadic(rng2, -4, 4, 2), dyadic(rng2, -4, 4, 2), rng2.choice([0.5, 1.0, 2.0]), rng2.choice([0.25, 1.0, 4.0])
+            x, y = m1 + rng2.randint(-8, 8) / 4.0, m2 + rng2.randint(-8, 8) / 4.0
+        else:
+            x, y = m1 + s1 * rng2.uniform(-3, 3), m2        # on an axis
+        R.append("c07.gauss2d %s %s %s %s %s %s" % (hx(x), hx(y), hx(m1), hx(m2), hx(s1), hx(s2)))
     return R
 
 
@@ -358,6 +376,8 @@ def _key(op, a, model):
             t, x = int(a[0]), int(a[2]); return (op, tag(model), t // 20, (x > t) - (x < t), fl(a[1]) in (0.0, 1.0))
         if op in ("c07.pois_pmf", "c07.pois_cdf"):
             return (op, tag(model), mt[0] if mt else "", mag(fl(a[0])), int(a[1]) // 50, int(a[1]) >= 100)
+        if op == "c07.gauss2d":
+            return (op, tag(model), mag(fl(a[4])), mag(fl(a[5])), fl(a[0]) == fl(a[2]), fl(a[1]) == fl(a[3]))
         if op in ("c07.chibar_pdf", "c07.chibar_cdf", "c07.lik_b", "c07.loglik_b", "c07.kde"):
             return (op, tag(model), mt[0] if mt else "", int(a[0]))
         if op == "c07.pois_inv":
@@ -437,6 +457,20 @@ def _check(op, a, ti, mt, ctx):
             _val(ctx, out, "CDF_Gauss", v, ref, 8 * EPSF)
             if not (0 <= v <= 1):
                 out.append(fail("prop", "CDF_Gauss outside [0,1]", repr(v)))
+    elif op == "c07.gauss2d":
+        x, y, m1, m2, s1, s2 = [M(Fraction(fl(t))) for t in a]
+        v, g1, g2 = fl(ti[0]), fl(ti[1]), fl(ti[2])
+        zx, zy = (x - m1) / s1, (y - m2) / s2
+        e = (zx * zx + zy * zy) / 2
+        ref = mpmath.exp(-e) / (2 * mpmath.pi * s1 * s2)
+        _val(ctx, out, "PDF_Gauss_2D", v, ref, ref * K_EXP * EPSF * (e + 8) + FLOOR)
+        if v < 0:
+            out.append(fail("prop", "PDF_Gauss_2D negative", repr(v)))
+        # the product of the two one-dimensional densities (both as the implementation computes them)
+        prod = mpf(g1) * mpf(g2)
+        if not ratio(ctx, "PDF_Gauss_2D vs PDF_Gauss*PDF_Gauss", abs(mpf(v) - prod), prod * 2 * K_EXP * EPSF * (e + 8) + FLOOR):
+            out.append(fail("prop", "PDF_Gauss_2D is not the product of the two one-dimensional normal densities",
+                            "2-D %r, product %s" % (v, mpmath.nstr(prod, 17))))
     elif op == "c07.gauss_q":
         p, mu, s = [fl(t) for t in a]; q, c = fl(ti[0]), fl(ti[1])
         qd0 = 2.0 * p - 1.0
